@@ -240,7 +240,7 @@ class VariableSizedTiles:
 
     def __init__(self, chunks: Chunks2d) -> None:
         self._offsets = tuple(
-            np.asarray([0, *idx], dtype="int32").cumsum(dtype="int32") for idx in chunks
+            np.asarray([0, *idx], dtype="int64").cumsum(dtype="int64") for idx in chunks
         )
 
     def crop(self, roi: ROI) -> "VariableSizedTiles":
